@@ -23,6 +23,13 @@ class InBuf : public std::streambuf
         cv.notify_all();
     }
     uint64_t consumed_lines() { return lines_consumed.load(); }
+    // end of input: getline in Uci::loop fails once the queue is drained
+    void close()
+    {
+        std::lock_guard<std::mutex> l(m);
+        closed = true;
+        cv.notify_all();
+    }
 
   protected:
     int_type underflow() override
